@@ -118,14 +118,6 @@ def _compile(src):
         loader.unload_module(mod)
 
 
-def _pattern(T_decl_signed, width, got):
-    if got is None:
-        return None
-    if isinstance(got, bool):
-        return int(got)
-    return got & ((1 << width) - 1)
-
-
 class _Run:
     def __init__(self):
         self.compilations = 0
